@@ -39,17 +39,21 @@ def x_duration(story):
     pl = _payload(story)
     if pl is None:
         return None
-    sd = pl.find('StoryDuration')
+    # a tag that is present but EMPTY holds no data: it counts as absent
+    def val(tag):
+        e = pl.find(tag)
+        return None if e is None or e.text is None else float(e.text)
+    sd = val('StoryDuration')
     if sd is not None:
-        return float(sd.text)
-    tt, mt = pl.find('TextTime'), pl.find('MediaTime')
+        return sd
+    tt, mt = val('TextTime'), val('MediaTime')
     if tt is None and mt is None:
         return None
-    return (float(tt.text) if tt is not None else 0.0) + (float(mt.text) if mt is not None else 0.0)
+    return (tt or 0.0) + (mt or 0.0)
 
 
 def x_time(text):
-    return None if text is None else datetime.fromisoformat(text)
+    return None if text is None else datetime.fromisoformat(text.strip())
 
 
 def x_explicit(story, tag):
